@@ -377,6 +377,30 @@ func TestConcurrentPrinters(t *testing.T) {
 	})
 }
 
+func TestClangCorpus(t *testing.T) {
+	const test = "ClangCorpus"
+	hx.Rule(test, "clang-14 output for corpus/src x corpus.ClangVariants (see C01; every fourth case in the quick tier), parsed: 6 goroutines running String, WriteTo and sub-entity calls from both start states; same oracles as ConcurrentPrinters")
+	for i, c := range corpus.ClangCases() {
+		if !hx.Mine(i) || !hx.Thorough() && i%4 != 0 {
+			continue
+		}
+		x := c.Text()
+		if x == "" || len(x) > 200<<10 {
+			hx.Discard("clang_rejects_combination_or_too_large")
+			continue
+		}
+		for _, printed := range []bool{false, true} {
+			pl := plan{Printed: printed}
+			for g := 0; g < 6; g++ {
+				pl.Ops = append(pl.Ops, []op{{Kind: "String"}, {Kind: "Func", F: g}, {Kind: "Block", F: g, B: 1}, {Kind: "WriteTo"}, {Kind: "Inst", F: g, B: 0, I: g}})
+			}
+			hx.Eval(1)
+			checkCase(t, test, x, pl)
+			hx.NonTrivial(fmt.Sprintf("clang/%s/%v", c.Name(), printed))
+		}
+	}
+}
+
 func TestCatalogue(t *testing.T) {
 	const test = "Catalogue"
 	hx.Rule(test, "fixed cases: repository testdata and a module with unnamed globals, an unnamed function and unnamed locals, printed by 8 goroutines calling String() from both start states")
